@@ -79,6 +79,7 @@ class Mon(object):
         self.fp_events = {}
         self.reached = {}        # qualified function -> calls
         self.extra = {}          # free-form, merged by update/sum
+        self.headroom = {}       # monitor -> largest (error / tolerance) among passing comparisons
 
     # ---- case bookkeeping -------------------------------------------------
     def begin(self, kind, params):
@@ -112,7 +113,7 @@ class Mon(object):
 
     # ---- the oracle entry point ---------------------------------------------
     def check(self, monitor, ok, residual=None, observed=None, expected=None,
-              finding=None, detail=None):
+              finding=None, detail=None, tol=None):
         """Record one oracle evaluation by `monitor`.
 
         ok       -- verdict of the oracle for this evaluation
@@ -124,6 +125,10 @@ class Mon(object):
         if st is None:
             st = self.stats[monitor] = [0, 0, 0, 0.0]
         st[0] += 1
+        if tol is not None and ok and residual is not None and tol > 0:
+            r = float(residual) / float(tol)
+            if r > self.headroom.get(monitor, 0.0):
+                self.headroom[monitor] = r
         if residual is not None:
             r = float(residual)
             if r != r:
@@ -169,6 +174,10 @@ class Mon(object):
             if not np.all(np.isfinite(a_)):
                 err = float("inf")
             tol = atol + rtol * scale
+            if tol > 0 and err <= tol:
+                r = err / tol
+                if r > self.headroom.get(monitor, 0.0):
+                    self.headroom[monitor] = r
             return self.check(monitor, err <= tol, residual=err,
                               observed=None if err <= tol else a_, expected=None if err <= tol else b_, **kw)
         except Exception as exc:
@@ -180,7 +189,8 @@ class Mon(object):
         return {"prop": self.prop, "stats": self.stats, "events": self.events, "nviol": self.nviol,
                 "known": self.known, "nontrivial": sorted(self.nontrivial), "configs": self.configs,
                 "samples": self.samples, "ncases": self.ncases, "fp_events": self.fp_events,
-                "reached": self.reached, "extra": jsonable(self.extra), "kind_seen": self._kind_seen}
+                "reached": self.reached, "extra": jsonable(self.extra), "kind_seen": self._kind_seen,
+                "headroom": self.headroom}
 
     def merge(self, d):
         for m, st in d["stats"].items():
@@ -211,6 +221,9 @@ class Mon(object):
             self.fp_events[c] = self.fp_events.get(c, 0) + n
         for c, n in d["reached"].items():
             self.reached[c] = self.reached.get(c, 0) + n
+        for k, r in d.get("headroom", {}).items():
+            if r > self.headroom.get(k, 0.0):
+                self.headroom[k] = r
         for k, n in d.get("kind_seen", {}).items():
             self._kind_seen[k] = self._kind_seen.get(k, 0) + n
         for k, v in d.get("extra", {}).items():
